@@ -109,6 +109,10 @@ def gen_election(rnd, rule=None, small=False, flags=None, large=False):
             rnd.shuffle(p)
             pool.append(p[:rnd.randint(1, n)])
     big_mult = flag('big_mult', 0.08)
+    # every multiplier in the millions: fixed-point keep factors can then no longer push the surplus below omega
+    # and Meek-type iterations end in the rarely taken "stable state" branches
+    huge_mult = flag('huge_mult', 0.3 if rule == 'meek-prf' else 0.15 if rule in ('meek', 'warren') else 0.03)
+    huge_scale = 10 ** rnd.randint(6, 9)
     ballots = []
     for _ in range(nlines):
         if pool and rnd.random() < 0.8:
@@ -131,7 +135,9 @@ def gen_election(rnd, rule=None, small=False, flags=None, large=False):
                 merged.append(rk[i:i + w])
                 i += w
             groups = merged
-        if tie_heavy:
+        if huge_mult:
+            mult = rnd.randint(1, 9) * huge_scale + (rnd.randint(0, 9) if rnd.random() < 0.3 else 0)
+        elif tie_heavy:
             mult = rnd.choice((1, 1, 2, 2, 3))
         elif big_mult and rnd.random() < 0.3:
             mult = 10 ** rnd.randint(2, 6) + rnd.randint(0, 9)
